@@ -21,6 +21,7 @@ import (
 	"fmt"
 	"os"
 	"path/filepath"
+	"regexp"
 	"runtime"
 	"sort"
 	"strconv"
@@ -50,6 +51,8 @@ type Rig interface {
 	Check(w int, idxs []int) string
 	// DirOf is the storage directory of wallet w.
 	DirOf(w int) string
+	// Marker is a substring of the fully qualified function names of the registry's package.
+	Marker() string
 	NumKnown() int // number of wallets the registry lists (getWalletsPublicKeys); -1 if not applicable
 }
 
@@ -236,11 +239,39 @@ type opResult struct {
 	err     error
 	crashed bool
 	pan     interface{}
+	hung    string // not empty: the operation is deadlocked (stacks of the blocked goroutines)
+}
+
+var stackHeader = regexp.MustCompile(`(?m)^goroutine \d+ \[([^\],]+)[^\]]*\]:$`)
+
+// blockedStacks returns the stacks of all goroutines that mention marker, with
+// the header reduced to the wait reason, and whether all of them are blocked.
+func blockedStacks(marker string) (string, bool) {
+	buf := make([]byte, 1<<20)
+	buf = buf[:runtime.Stack(buf, true)]
+	var keep []string
+	allBlocked := true
+	for _, blk := range strings.Split(string(buf), "\n\n") {
+		if !strings.Contains(blk, marker) || strings.Contains(blk, "verifc38.blockedStacks") {
+			continue
+		}
+		m := stackHeader.FindStringSubmatch(blk)
+		if m == nil {
+			continue
+		}
+		switch m[1] {
+		case "running", "runnable", "syscall", "IO wait", "sleep":
+			allBlocked = false
+		}
+		keep = append(keep, stackHeader.ReplaceAllString(blk, "goroutine ["+m[1]+"]:"))
+	}
+	sort.Strings(keep)
+	return strings.Join(keep, "\n\n"), allBlocked && len(keep) > 0
 }
 
 // run executes one registry operation on its own goroutine: a crash ends that
 // goroutine (runtime.Goexit inside the persistence call).
-func run(t *testing.T, op func() error) opResult {
+func run(t *testing.T, marker string, op func() error) opResult {
 	done := make(chan opResult, 1)
 	go func() {
 		returned := false
@@ -257,13 +288,29 @@ func run(t *testing.T, op func() error) opResult {
 		err = op()
 		returned = true
 	}()
-	select {
-	case r := <-done:
-		return r
-	case <-time.After(120 * time.Second):
-		t.Fatalf("verifc38: registry operation did not return")
+	for waited := 0; ; waited++ {
+		select {
+		case r := <-done:
+			return r
+		case <-time.After(30 * time.Second):
+		}
+		// slow or deadlocked? Deadlocked = every goroutine inside the registry
+		// package is parked and nothing moved for several seconds.
+		s1, b1 := blockedStacks(marker)
+		time.Sleep(3 * time.Second)
+		s2, b2 := blockedStacks(marker)
+		select {
+		case r := <-done:
+			return r
+		default:
+		}
+		if b1 && b2 && s1 == s2 {
+			return opResult{hung: s1}
+		}
+		if waited >= 8 {
+			t.Fatalf("verifc38: registry operation did not return\n%s", s2)
+		}
 	}
-	return opResult{}
 }
 
 func pairs(v kit.V, rig Rig) map[string]bool {
@@ -335,12 +382,18 @@ func Replay(t *testing.T, rep *kit.Report, rig Rig, cases []kit.V) {
 			rep.Diverge(fmt.Sprintf("%s:%s:%s", rig.Name(), s.Get("a").Str(), field),
 				fmt.Sprintf("%s (behaviour %s, step %d %s)", what, key, idx+1, compact[idx]), caseX, exp, obs)
 		}
+		hung := false
 		restart := func(s kit.V, idx int) bool {
 			fh.mu.Lock()
 			fh.save, fh.archive, fh.archFail, fh.crashAtN, fh.nArchive = ok, ok, nil, 0, 0
 			fh.unreadable = pairs(s.Get("K"), rig)
 			fh.mu.Unlock()
-			r := run(t, func() error { return rig.Start(fh) })
+			r := run(t, rig.Marker(), func() error { return rig.Start(fh) })
+			if r.hung != "" {
+				diverge(s, idx, "hang", "rebuilding the registry from storage never returns (all its goroutines are blocked)", "a registry", r.hung)
+				hung = true
+				return false
+			}
 			if r.pan != nil || r.err != nil || r.crashed {
 				diverge(s, idx, "start", "the registry could not be rebuilt from storage", "a registry", fmt.Sprintf("%+v", r))
 				return false
@@ -371,7 +424,7 @@ func Replay(t *testing.T, rep *kit.Report, rig Rig, cases []kit.V) {
 					fh.save, wantCrash, nontrivial = crashAfter, true, true
 				}
 				fh.mu.Unlock()
-				r = run(t, func() error { return rig.Register(w, idx) })
+				r = run(t, rig.Marker(), func() error { return rig.Register(w, idx) })
 			case "ArchiveOk", "ArchiveFail", "ArchiveMissing", "ArchiveCrash":
 				nontrivial = true
 				fh.mu.Lock()
@@ -384,7 +437,7 @@ func Replay(t *testing.T, rep *kit.Report, rig Rig, cases []kit.V) {
 					fh.archive, wantCrash = crashAfter, true
 				}
 				fh.mu.Unlock()
-				r = run(t, func() error { return rig.Archive(w) })
+				r = run(t, rig.Marker(), func() error { return rig.Archive(w) })
 			case "Unregister", "UnregisterCrash":
 				nontrivial = true
 				fh.mu.Lock()
@@ -396,7 +449,7 @@ func Replay(t *testing.T, rep *kit.Report, rig Rig, cases []kit.V) {
 					fh.crashAtN, wantCrash = s.Get("A").Len(), true
 				}
 				fh.mu.Unlock()
-				r = run(t, func() error {
+				r = run(t, rig.Marker(), func() error {
 					rig.Unregister(s.Get("latest").Int(), set(s.Get("S")), set(s.Get("E")))
 					return nil
 				})
@@ -411,6 +464,10 @@ func Replay(t *testing.T, rep *kit.Report, rig Rig, cases []kit.V) {
 			}
 			if a != "Restart" {
 				switch {
+				case r.hung != "":
+					diverge(s, i, "hang", "the operation never returns (all goroutines of the registry are blocked)", "a result", r.hung)
+					good = false
+					hung = true
 				case r.pan != nil:
 					diverge(s, i, "panic", fmt.Sprintf("the registry panicked: %v", r.pan), "no panic", r.pan)
 					good = false
@@ -504,5 +561,11 @@ func Replay(t *testing.T, rep *kit.Report, rig Rig, cases []kit.V) {
 		}
 		rep.Eval(k, sample)
 		os.RemoveAll(root)
+		if hung {
+			// blocked goroutines of the registry stay behind; later waits would
+			// only repeat the finding
+			rep.Note("replay stopped after a deadlocked operation")
+			return
+		}
 	}
 }
